@@ -217,10 +217,12 @@ def generate(coqdir=None):
         ls = srcs(lb.body)
         if ls[-1] != "self._unload_file(file_name)" or len(srcs(astlib.body_no_doc(ul))) != 1:
             raise ShapeError("unload_file shape")
+        lstm = [n for n in lb.body if not is_log(n)]
         if len(ls) == 3:
             unl_guard = False
-        elif len(ls) == 5 and ls[0] == "info = self.file_futures.get(file_name)" and \
-                ls[1] == "if " + norm("info is not None and not info[-1].done()") + ":\n    return":
+        elif len(ls) == 5 and ls[0] == "info = self.file_futures.get(file_name)" and isinstance(lstm[1], ast.If) and \
+                ast.unparse(lstm[1].test) == norm("info is not None and not info[-1].done()") and \
+                srcs(lstm[1].body) == ["return"] and not lstm[1].orelse:
             unl_guard = True
         else:
             raise ShapeError("unload_file lock block: %r" % ls)
@@ -243,8 +245,33 @@ def generate(coqdir=None):
         return dict(get_w=get_w, upd_w=upd_w, done_w=done_w, first=first, second=second, touch=touch_if_done, dmax=default_max,
                     guard=upd_guard, oversize=oversize, else_heap=else_heap)
 
+    def df_retry():
+        m = astlib.module("klongpy/db/df_cache.py")
+        cls = astlib.find_class(m, "PandasDataFrameCache")
+        fn = astlib.find_func(cls, "update")
+        body = astlib.body_no_doc(fn)
+        withs = [n for n in body if isinstance(n, ast.With)]
+        if len(withs) != 2 or ast.unparse(withs[0].items[0].context_expr) != "self.file_futures_lock" or \
+                ast.unparse(withs[1].items[0].context_expr) != "flock":
+            raise ShapeError("PandasDataFrameCache.update: with blocks")
+        retry = "return df if update_applied else self.update(file_name, new_df)"
+        inner = [ast.unparse(n) for n in withs[1].body]
+        after = [ast.unparse(n) for n in body[body.index(withs[1]) + 1:]]
+        if "update_applied = self.update_file(file_name, serialize_df(df))" not in inner:
+            raise ShapeError("PandasDataFrameCache.update: update_file call")
+        if inner[-1] == retry and not after:
+            return False
+        if after == [retry] and retry not in inner:
+            return True
+        raise ShapeError("PandasDataFrameCache.update: retry placement")
+    dfr, dfwhy = astlib.try_flag(df_retry)
+
     r, why = astlib.try_flag(work)
     out = ["From Coq Require Import ZArith.", "From C18 Require Import Model."]
+    out.append("(* PandasDataFrameCache.update: is the retry evaluated after the per-file lock is released? (harness only) *)")
+    out.append("Definition df_retry_outside_flock : bool := %s.%s" % (
+        astlib.coq_bool(bool(dfr)), "" if dfwhy is None else "  (* shape not recognised: %s *)" % dfwhy))
+    out.append("Definition df_shape_ok : bool := %s." % astlib.coq_bool(dfwhy is None))
     b = astlib.coq_bool
     if r is None:
         out.append("(* shape not recognised: %s *)" % why)
@@ -865,7 +892,7 @@ def plan(chk, rng):
     A = [(0, CA)]
     AB = [(0, CA), (1, CB)]
     q = tier == "quick"
-    lim = 300 if q else 400
+    lim = 200 if q else 400
     out = [
         # 2 threads x 1 op, same file: every schedule
         ("get||upd", (BIG, A, [[g(0)], [u(0, U1)]]), None, None),
@@ -874,10 +901,13 @@ def plan(chk, rng):
         ("upd||upd", (BIG, A, [[u(0, U1)], [u(0, U2)]]), None, None),
         ("get||get", (BIG, A, [[g(0)], [g(0)]]), None, None),
         ("get||upd-new", (BIG, [], [[g(0)], [u(0, U1)]]), None, None),
-        # two files (independent threads: many interleavings), with and without eviction
+        # two files that do not fit together (eviction): complete within the preemption bound
+        ("getA||getB-evict", (6, AB, [[g(0)], [g(1)]]), 2 if q else 3, 1000 if q else 3000),
+        ("updA||getB-evict", (6, AB, [[u(0, U1)], [g(1)]]), 2 if q else 3, 700 if q else 3000),
+        ("getB;getA||updA-evict", (6, AB, [[g(1), g(0)], [u(0, U1)]]), 2, 1500 if q else 3000),
+        ("get;updEmpty||getB-evict", (6, AB, [[g(0), u(0, [])], [g(1)]]), 1 if q else 2, 400 if q else 3000),
+        # two files, both fit
         ("getA||updB", (BIG, AB, [[g(0)], [u(1, U1)]]), 2 if q else 3, lim),
-        ("getA||getB-evict", (6, AB, [[g(0)], [g(1)]]), 2 if q else 3, lim),
-        ("updA||getB-evict", (6, AB, [[u(0, U1)], [g(1)]]), 2 if q else 3, lim),
         # 2 threads x 2 ops
         ("upd;get||upd", (BIG, A, [[u(0, U1), g(0)], [u(0, U2)]]), 2 if q else None, lim),
         ("get;get||upd", (BIG, A, [[g(0), g(0)], [u(0, U1)]]), 2 if q else None, lim),
@@ -980,15 +1010,17 @@ def df_explore(chk, work, rng, deadline):
     # a direct update_file racing with update(): update_file may report False to update(), whose retry is inside
     # `with flock` (known finding C18-K4 while df_cache.py keeps that shape)
     plans.append(("df:upd||rawupd", (BIG, on_disk, [[("dfupd", 0, a)], [("rawupd", 0, {5: 50})]])))
+    retry_outside = "df_retry_outside_flock : bool := true" in chk.generated_text
     lim = 60 if chk.tier == "quick" else 600
     k4_witness = [0, 0, 0, 0, 0, 1, 2, 2, 2, 2, 0, 1, 1, 0, 3, 3, 3, 3, 0, 0, 1]
     bad = []
     for name, cfg in plans:
         runs, complete = enumerate_schedules(runner, cfg, bound=2, limit=lim, rng=rng, deadline=deadline)
         if name == "df:upd||rawupd":
-            w = runner.run(cfg, k4_witness, policy="stop")
-            if not w["error"] and w.get("self_deadlock"):     # still the known behaviour; otherwise the sample decides
-                runs.insert(0, w)
+            if not retry_outside:                                  # the witness of K4 is for the retry inside `with flock`
+                w = runner.run(cfg, k4_witness, policy="stop")
+                if not w["error"] and w.get("self_deadlock"):
+                    runs.insert(0, w)
         have = {f: True for f, _ in cfg[1]}
         start = dict(init) if have else {}
         updates = [o[2] for p in cfg[2] for o in p if o[0] == "dfupd"]
@@ -1002,7 +1034,7 @@ def df_explore(chk, work, rng, deadline):
             if r["error"]:
                 fails.append("scheduler error: " + r["error"])
             elif not r["finished"]:
-                if name == "df:upd||rawupd" and r.get("self_deadlock"):
+                if name == "df:upd||rawupd" and r.get("self_deadlock") and not retry_outside:
                     chk.count("df_retry_self_deadlocks")
                     chk.finding("C18-K4-df-update-retry-deadlock", "PandasDataFrameCache.update deadlocks on its own append lock",
                                 {"config": name, "schedule": [t for _, t, _ in r["trace"]]})
@@ -1171,6 +1203,21 @@ def _run(chk, rng, proof, work):
         chk.counters["known_" + fid] = len(reps)
     for rep in prop_fail_new[:3]:
         chk.violation("FileCache: " + "; ".join(rep["fails"]) + " (config %s)" % rep["config"], rep)
+    if not chk.violations and (bad_corr is not None or not proof["ok"]):
+        # a proof obligation or the correspondence broke but no sampled schedule failed the property: search harder
+        # (every schedule within two preemptions of the small configurations, no sampling limit, own time budget)
+        sweep_deadline = time.time() + (150 if tier == "quick" else 600)
+        before = len(prop_fail_new)
+        for name, cfg, bound, limit in plan(chk, rng):
+            if time.time() > sweep_deadline or len(prop_fail_new) > before:
+                break
+            if limit is None or sum(len(p) for p in cfg[2]) > 3:
+                continue
+            runs, complete = enumerate_schedules(runner, cfg, bound=2, limit=None, rng=None, deadline=sweep_deadline)
+            chk.count("sweep_configurations")
+            judge(name, cfg, runs, "sweep")
+        for rep in prop_fail_new[before:before + 2]:
+            chk.violation("FileCache: " + "; ".join(rep["fails"]) + " (config %s, found by the wider sweep)" % rep["config"], rep)
     if not chk.violations:
         if bad_corr is not None:
             chk.violation("correspondence between klongpy FileCache and the Coq model broke (%s); no failing schedule of the property among %d real runs"
